@@ -54,6 +54,8 @@ func init() {
 }
 
 func runC09(p *chk.Prog, r *chk.Report) {
+	c05Publish(p, r)
+	c13Refcount(p, r)
 	c09Exit(p, r)
 	c09Handle(p, r)
 	c09Delete(p, r)
@@ -92,7 +94,9 @@ func c09Exit(p *chk.Prog, r *chk.Report) {
 	// the addresses handed on are the ones parsed from the status, all of them
 	okIPs := false
 	if lbIPs != nil {
-		for _, rs := range f.RangeLoops(func(e ast.Expr) bool { return f.MatchWith("S.Status.LoadBalancer.Ingress", e, chk.H("S", isParam(f, "svc"))) != nil }) {
+		for _, rs := range f.RangeLoops(func(e ast.Expr) bool {
+			return f.MatchWith("S.Status.LoadBalancer.Ingress", e, chk.H("S", isParam(f, "svc"))) != nil
+		}) {
 			isApp := f.IsAssignPat("L", "append(L, IP)", chk.H("L", f.IsObj(lbIPs)), chk.H("IP", definedBy(g, "net.ParseIP(EL.IP)", chk.H("EL", rangeVal(f, rs)))))
 			// an iteration either appends or leaves the function through deleteBalancer
 			okIPs = !loopSkipsWithout(g, rs, isApp, chk.NoGuard)
